@@ -187,11 +187,12 @@ def cases(tier):
     tagof = lambda us: "".join(u[6:] for u in us) or "none"
     faults = [Fault.NOTFOUND, Fault.ERROR_BEFORE, Fault.ERROR_PARTIAL, Fault.POST_ERROR]
     presents = [(), (Cc,), (B, Cc)] if q else [(), (Cc,), (B,), (B, Cc)]
-    requests = [[A], [A, B], [B, A]] + ([] if q else [[A, B, Cc], [B, A, Cc]])
+    # incl. requests that name the failing URI twice (every occurrence must be omitted / the request must raise)
+    requests = [[A], [A, B], [B, A], [A, A], [A, B, A]] + ([] if q else [[A, B, Cc], [B, A, Cc], [B, A, A]])
     for present in presents:
         for req in requests:
             for pos, faulty in enumerate(req):
-                if faulty in present:
+                if faulty in present or faulty in req[:pos]:
                     continue
                 for f in faults:
                     add("case_fault", f"fault_{f}_{tagof(present)}__{tagof(req)}_at{pos}", present=list(present),
